@@ -1,5 +1,5 @@
 (* C16: IMP conversion.  For every integer. *)
-From BE Require Import Model.Score Spec.Duplicate Gen.ScoreConsts.
+From BE Require Import Model.Score Spec.Duplicate.
 From Coq Require Import Lia.
 Local Open Scope Z_scope.
 
